@@ -112,6 +112,31 @@ Theorem C15_once_aborted_every_step_refused : forall w ps k log,
   run_steps w ps k log true = (log, refused ps, true).
 Proof. exact run_steps_refused. Qed.
 
+(* THE SIDE CONDITIONS HOLD FOR EVERY COMPILED SCENARIO: whatever the steps do (any request script, NaN pattern, budget,
+   nesting depth), the programs compiled from the exit-code machine are well formed, and quiet when no evaluator call of
+   the fault script raises the abort itself -- so the theorems above apply to all of them, for every abort index *)
+Theorem C15_compiled_steps_satisfy_hypotheses : forall l hs ps,
+  Forall (fun s => fst s < 100) l -> compile_steps l hs = Some ps ->
+  Forall wf ps /\ (forallb (fun s => no_abort_spec (snd s)) l = true -> Forall quiet ps).
+Proof.
+  intros l hs ps Hl H. split; [exact (compile_steps_wf l hs ps Hl H) | intros Hq; exact (compile_steps_quiet l hs ps Hq H)].
+Qed.
+
+Theorem C15_every_compiled_scenario : forall w, (forall lvl e, recipients w lvl e <> []) ->
+  forall l ps k, Forall (fun s => fst s < 100) l -> forallb (fun s => no_abort_spec (snd s)) l = true ->
+  compile_steps l [] = Some ps ->
+  fst (fst (run_steps w ps (Some k) [] false)) = predict w (full_log w ps) (Some k) /\
+  scan (fst (fst (run_steps w ps (Some k) [] false))) [] = [] /\
+  (let '(_, x, ab) := run_steps w ps (Some k) [] false in
+   if k <? length (full_log w ps) then ab = true /\ x = top_rets w ps k
+   else ab = false /\ x = exits (flat_map rets ps)).
+Proof.
+  intros w Hne l ps k Hl Hq Hc.
+  pose proof (compile_steps_wf l [] ps Hl Hc) as Hw. pose proof (compile_steps_quiet l [] ps Hq Hc) as Hqq.
+  split; [exact (proj2 (prefix_closure w Hne ps k Hw Hqq))|].
+  split; [exact (run_steps_closed w Hne ps (Some k) Hw Hqq) | exact (abort_latches w Hne ps k Hw Hqq)].
+Qed.
+
 (* non-vacuity: three plan levels with two / one / one handlers, one observer of every event type and an abort callback
    registered for START_EVALUATION only; an optimizer step with nested optimizations two levels deep, then an evaluator
    step; abort at the innermost step's START_EVALUATION delivery to the abort callback *)
@@ -144,3 +169,5 @@ Print Assumptions C15_prefix_closure.
 Print Assumptions C15_abort_latches.
 Print Assumptions C15_aborted_step_reports_user_abort.
 Print Assumptions C15_once_aborted_every_step_refused.
+Print Assumptions C15_compiled_steps_satisfy_hypotheses.
+Print Assumptions C15_every_compiled_scenario.
